@@ -356,9 +356,13 @@ void doCase(long idx, bool full, const std::string &optS, const std::string &doc
   }
   else
   {
-    std::string c;
-    for (size_t i = 0; i < o.compact.size(); i++) { if (i) c += ";"; c += o.compact[i]; }
-    line += ",\"ctok\":\"" + c + "\"";
+    // the emitted tokens are judged (balance, limits, sweeps) for accepted documents only: keep rejected ones short
+    if (o.accPull)
+    {
+      std::string c;
+      for (size_t i = 0; i < o.compact.size(); i++) { if (i) c += ";"; c += o.compact[i]; }
+      line += ",\"ctok\":\"" + c + "\"";
+    }
     if (!domSame) line += ",\"dom\":" + (o.accDom ? joinList(o.domEv) : std::string("null")) + ",\"shape\":" + joinList(o.shape.ev);
   }
   line += "}";
